@@ -110,7 +110,7 @@ def machine(ctx, quick):
         ctx.model("HeatKernel (heat as a state machine, exact at sigma = 1/(8 ln 2)) %s" % cst, r, constants=cst)
     r = tlc.run_tlc("HeatKernel", workers=4, spec="FairSpec", constants=dict(MaxC=1, MaxPts=2), properties=["Termination"], heap="3g")
     ctx.model("HeatKernel liveness under WF (every call returns)", r)
-    MaxC = 2 if quick else 3
+    MaxC = 2      # (coordinates up to 3 overflow the fixed-point comparison of TraceHeat: the kernel values span 2^-18 .. 1)
     dump = os.path.join(mktempdir(prefix="heatdump_"), "dump.json")
     r = tlc.run_tlc("HeatKernel", workers=1, env={"DUMP_FILE": dump}, init="DumpInit", nxt="DumpNext", constants=dict(MaxC=MaxC, MaxPts=2), heap="6g")
     if r["error"] or not os.path.exists(dump):
